@@ -475,7 +475,11 @@ func (d *driver) ingDelete(ns string, i int) {
 func (d *driver) mergeable(ns string, i int) {
 	d.op("mergeable-upsert")
 	host := fmt.Sprintf("merge%d.%s.example.com", i, ns)
+	// the master carries an annotation a master may not have but that still validates (a mistake the
+	// controller tolerates by dropping it in its own copy while generating): the generator must not
+	// touch the object it was given, which is the one Configuration and the informer store hold
 	d.ingPut(d.ing(ns, fmt.Sprintf("master%d", i), host, map[string]string{"nginx.org/mergeable-ingress-type": "master",
+		"nginx.org/use-cluster-ip": "true",
 		"nginx.org/proxy-read-timeout": fmt.Sprintf("%ds", 1+d.rng.Intn(50))}, nil))
 	d.ingPut(d.ing(ns, fmt.Sprintf("minion%d", i), host, map[string]string{"nginx.org/mergeable-ingress-type": "minion",
 		"nginx.org/proxy-read-timeout": fmt.Sprintf("%ds", 1+d.rng.Intn(50))}, []string{"/m"}))
@@ -536,10 +540,13 @@ func (d *driver) step() {
 	case 10, 11:
 		d.ingUpsert(ns, i)
 	case 12:
-		if d.rng.Bool() {
+		switch d.rng.Intn(3) {
+		case 0:
 			d.ingDelete(ns, i)
-		} else {
+		case 1:
 			d.minionDelete(ns, 0)
+		default:
+			d.mergeable(ns, 0)
 		}
 	case 13:
 		d.mergeable(ns, 0)
